@@ -13,10 +13,10 @@ CHECKS = {
   "Feature-composed multi-package programs are built by the regular toolchain and by garble under several flag/seed configurations; the binaries are run on several argument vectors and stdout+exit status compared; `garble test` verdict lines and `garble run` output are compared with go test / go run.",
   "Programs come from a feature grammar (20 feature modules), not all Go programs; only linux/amd64 is executed; the regular toolchain is the reference."),
  "C02": ("exploration", "runtime monitoring: byte-level scan of produced binaries against generated marker sets + metadata probes",
-  "Every identifier, file, directory, package and module name of the generated programs is a unique random marker; the obfuscated binary is searched for each must-hide marker, the source/TMPDIR paths and the Go version; go version -m, go tool buildid and the ELF section table are probed. A marker only counts when the regular stripped binary of the same program contains it.",
+  "Every identifier, file, directory, package and module name of the generated programs is a unique random marker; the obfuscated binary is searched for each must-hide marker, the source/TMPDIR paths and the Go version; go version -m, go tool buildid and the ELF section table are probed. A marker only counts when the regular stripped binary of the same program contains it. A special-name program declares a type, function, field and variable named after every identifier-like string literal in garble's own sources (names it special-cases for std packages) and common Go API names: the name-map oracle (garbled sources kept by the hook) plus pclntab / type-string / field-name records of the binary decide whether such a name survived.",
   "Sensitivity is proven per marker against the regular stripped build; exceptions (exported methods, reflection, non-GOGARBLE packages) are not asserted present."),
  "C03": ("exploration", "runtime monitoring: sha256 comparison of repeated real builds; re-obfuscation of identical source by cache entry-diff deletion as schedule/map-order sampling; hook-counted compile actions",
-  "Per (program, config) the first build in a private std-warm cache copy is the reference; the user packages are then re-obfuscated K times on byte-identical source by deleting exactly the cache entries that build created, varying -p, tree location, TMPDIR location and partial cache fill; two independent garble-cold builds and a warm build of one program are compared as well. Programs: composed multi-package programs, a literal-heavy program, control-flow programs with and without trash blocks.",
+  "Per (program, config) the first build in a private std-warm cache copy is the reference; the user packages are then re-obfuscated K times on byte-identical source by deleting exactly the cache entries that build created, varying -p, tree location, TMPDIR location and partial cache fill; two independent garble-cold builds and a warm build of one program are compared as well. Programs: composed multi-package programs, a literal-heavy program, a reflection program whose 18 reflected struct types share type and field names, control-flow programs with and without trash blocks.",
   "The clock cannot be set; equal toolchain/garble binary/platform throughout; control flow with trash blocks is a listed known finding."),
  "C04": ("exploration", "runtime monitoring: traces of executed obfuscated programs piped through garble reverse, frame-by-frame comparison with the -trimpath build's trace",
   "Generated call-chain programs (9 frame kinds, 3 packages, panic / PrintStack / runtime.Callers terminals) are run as regular -trimpath and as obfuscated builds; the obfuscated stderr, embedded in surrounding text with LF/CRLF/no-final-newline variants, goes through `garble reverse` and every program frame (function and call-site position) must equal the regular trace; text without obfuscated tokens must pass through unchanged with exit status 1.",
@@ -25,10 +25,10 @@ CHECKS = {
   "Generated import-free programs with ~120 literals each (all forms, 16 positions, boundary lengths, 5 byte classes) are rewritten by the tree's literals.Obfuscate with each of the 5 obfuscators forced and with random choice over several PRNG seeds, compiled and run; every printed value is compared with the source bytes. The same programs plus -ldflags=-X targets go through garble -literals and are compared with the regular build.",
   "Literal contexts come from a fixed grammar; a hook reports which literals were actually rewritten and by which obfuscator."),
  "C06": ("exploration", "runtime monitoring: build histories over one shared cache compared step by step with fresh-cache reference builds; hook-counted compile actions on unchanged rebuilds",
-  "Histories of garble builds (15-config alphabet: flags, seeds, GOGARBLE scopes, control flow, tags, -ldflags=-X with and without -literals; edits: comment, leaf body, main body, new file) run over one GOCACHE/GARBLE_CACHE; after every step sha256 and stdout must equal a reference build of the same config and source version from a cache that never saw the program; every second step is repeated unchanged and must run zero compile/asm actions.",
+  "Histories of garble builds (18-config alphabet: flags, seeds, GOGARBLE scopes, control flow, tags, -ldflags=-X with and without -literals and under GOGARBLE=module; edits: comment, leaf body, main body, new file, value and comment-only edits in a package four levels down) run over one GOCACHE/GARBLE_CACHE; after every step sha256 and stdout must equal a reference build of the same config and source version from a cache that never saw the program; every second step is repeated unchanged and must run zero compile/asm actions.",
   "References reuse an obfuscated std closure for their config; sha256 equality relies on reproducibility (C03)."),
  "C07": ("fault_enumeration", "runtime monitoring with fault injection: enumerated damage (delete/empty/truncate) to the cache files a real build created, then rebuild and compare with a fresh-cache build",
-  "The cache files created by building a 4-package program (reflection facts flowing through three packages, one assembly package) are enumerated; every GARBLE_CACHE entry, sampled (quick) or all (thorough) GOCACHE entries of the build, the patched linker and its stamp are each deleted, emptied, truncated to half and to one byte; all 15 non-empty subsets of four entries from different stores, whole-directory deletions and corrupt trim files are applied as well; after each plan a package is edited and the rebuild's exit status, sha256 and stdout (reflected names, assembly results) must equal a fresh-cache build.",
+  "The cache files created by building a 4-package program (reflection facts flowing through three packages, one assembly package) are enumerated; every GARBLE_CACHE entry, sampled (quick) or all (thorough) GOCACHE entries of the build, the patched linker and its stamp are each (and in pairs) deleted, emptied, truncated to half and to one byte; all 15 non-empty subsets of four entries from different stores, whole-directory deletions and corrupt trim files are applied as well; after each plan a package is edited and the rebuild's exit status, sha256 and stdout (reflected names, assembly results) must equal a fresh-cache build.",
   "Faults are the statement's classes (missing, empty, truncated); size-preserving corruption is out of scope; each plan runs on its own copy of the cache."),
  "C08": ("exploration", "runtime monitoring: differential execution of generated reflection programs, repeated re-obfuscation as schedule (map-order) sampling; in-process differential test of the injected replacer",
   "Generated programs send fresh struct types of 8 shapes along 19 flow paths to reflecting sinks (TypeOf/ValueOf walks, json, fmt, FieldByName); each program is re-obfuscated R times with fresh action IDs and map orders and every case line must equal the regular build's line in all R builds. The replacer injected into binaries is compared with strings.NewReplacer on generated pair tables.",
@@ -49,7 +49,7 @@ CHECKS = {
   "For composed programs under several flag sets, every obfuscated API-reachable object's name in the compiled garbled sources (name-map oracle, objectpaths computed independently with x/tools) must equal the `garble map` entry, must be listed, import paths must agree, and each listed name piped through `garble reverse` must come back as the original.",
   "Objects without objectpath are outside garble map by definition; GOGARBLE-subset configs are covered by C14."),
  "C14": ("exploration", "runtime monitoring: differential execution + byte-level binary scan per GOGARBLE pattern list; exit-status/stderr observation for rejected lists",
-  "A 5-package module whose packages use each other's structs and functions in both directions is built under exact, glob, prefix, std-mixed, all and nothing-matching GOGARBLE lists (quick 10, thorough all 31 subsets + extras): output must equal the regular build, markers and planted literals of matched packages must be absent, those of unmatched packages present, runtime names present, and a list matching nothing must be rejected without output.",
+  "A 5-package module whose packages use each other's structs and functions in both directions is built under exact, glob, prefix, std-mixed, all and nothing-matching GOGARBLE lists (quick 13, thorough all 63 subsets + extras; one library is a sibling whose path has another's as a string prefix; every package reflects on a type of its own): output must equal the regular build, markers and planted literals of matched packages must be absent, those of unmatched packages present, runtime names present, and a list matching nothing must be rejected without output.",
   "Presence is only required for markers the regular stripped binary contains; cross-partition struct identity is a listed known finding with a dedicated witness."),
  "C15": ("exploration", "runtime monitoring: differential build+execution of generated struct-type pairs across packages",
   "Generated pairs of identical struct types (1-6 fields over 11 field-type kinds, embedded fields, generic instantiation, alias of anonymous struct, differing tags) declared in two or three packages are converted, assigned, built as composite values and selected in a third package; garble must build them and the program must print what the regular build prints.",
@@ -57,9 +57,9 @@ CHECKS = {
  "C16": ("exploration", "runtime monitoring: in-process oracle over generated inputs + hook event stream of real builds",
   "The tree's own naming function is executed in-process on 10^5 (quick) to 4*10^6 (thorough) generated (salt, seed, name) triples and every name garble produces during real garble-cold builds (std + program, ~9*10^4 applications per build) is taken from a hook stream; each output is checked for well-formedness, export preservation, purity and per-salt distinctness.",
   "Inputs are PRNG-generated, not exhaustive; clash classification trusts an independent sha256 recomputation."),
- "C17": ("exploration", "runtime monitoring of concurrent real processes: sha256 against isolated builds, hook event histories (one CLOCK_MONOTONIC) checked offline - linker-digest invariant, writer agreement per key, porcupine linearizability of the package cache - with failpoint sleeps widening windows",
+ "C17": ("exploration", "runtime monitoring of concurrent real processes: sha256 against isolated builds, hook event histories (one CLOCK_MONOTONIC) checked offline - linker-digest invariant, writer agreement per key, porcupine linearizability of the package cache - with failpoint sleeps widening windows and staged schedules released on observed process state (/proc/<pid>/task/*/syscall shows the other command blocked in flock)",
   "Scenarios of 2-8 garble builds started together over one GOCACHE/GARBLE_CACHE/TMPDIR (identical, different flags, different projects; -p 1/2/16; warm, linker deleted, stale stamp, garble-cold, fully cold) must each exit 0 with the sha256 of the same command run alone; every linker digest executed must be that of a completely built linker; all writers of a cache key must agree; the recorded get/put history must be linearizable per key (porcupine); no garble temp entries may remain.",
-  "Interleavings are sampled (sleep failpoints, repetitions), not enumerated; the evidence lists the overlap classes actually observed; porcupine timeout => inconclusive."),
+  "Interleavings are sampled (sleep failpoints, repetitions) plus three steered ones (one command held between linker build / stamp / exec while the other waits on the lock), not enumerated; the evidence lists the overlap classes actually observed; porcupine timeout => inconclusive."),
  "C18": ("fault_enumeration", "runtime monitoring with crash injection: SIGKILL of the build's process group at enumerated hook failpoints and PRNG-chosen instants, then rerun and compare with an uninterrupted build",
   "A build in its own process group is killed at each named failpoint (after listing, around every step of the linker patch/build/stamp protocol, before cache writes, before executing compiler/linker for chosen packages, before clean-up and trim) and at PRNG-chosen instants, from warm and from linker-less cold cache copies; a sample of reruns is killed again; the final rerun must exit 0 with the uninterrupted build's sha256. The evidence lists the phases the kills landed in.",
   "SIGKILL of the process group models a crash; unsynced-page loss (power failure) is out of reach; each trial starts from a fresh copy of its start state."),
